@@ -8,9 +8,10 @@ CONSTANTS
   MaxWrites = 1000
   MaxStale = 1000
   Eager = TRUE
-  Kinds = {"frame","frag"}
+  Kinds = {"frame","frag","key","aud"}
   FragFormats = {"f1","f2"}
   DevCountFramesOnly = FALSE
+  DevSharedScratch = FALSE
 INVARIANTS Verdicts Drift
 POSTCONDITION Accepted
 CHECK_DEADLOCK FALSE
